@@ -25,3 +25,5 @@ def rules(ctx):
     S.c12_tree_rules(ctx)
     S.cache_reset_rules(ctx)
     S.extract_state_rules(ctx)
+    S.flush_take_rules(ctx)
+    S.full_range_rules(ctx)
